@@ -28,18 +28,18 @@ var nullableFields = map[string]bool{
 }
 
 type p5 struct {
-	p          *Prog
-	r          *Report
-	mayNil     map[*types.Func]map[int]string // function result index -> why it may be nil
-	nilWithErr map[*types.Func]map[int]bool   // result i is nil only on returns whose error result is non-nil
-	nilWithFalse map[*types.Func]map[int]bool // result i is nil only on returns whose last (bool) result is false
-	implCache  map[*Func][]implication
-	enumOK     map[*Func]bool
-	callers    map[*types.Func][]callSite
-	tolerant   map[*types.Func]bool           // pointer-receiver method that guards its receiver
-	tolDone    map[*types.Func]bool
-	nSites     int
-	nNullable  int
+	p            *Prog
+	r            *Report
+	mayNil       map[*types.Func]map[int]string // function result index -> why it may be nil
+	nilWithErr   map[*types.Func]map[int]bool   // result i is nil only on returns whose error result is non-nil
+	nilWithFalse map[*types.Func]map[int]bool   // result i is nil only on returns whose last (bool) result is false
+	implCache    map[*Func][]implication
+	enumOK       map[*Func]bool
+	callers      map[*types.Func][]callSite
+	tolerant     map[*types.Func]bool // pointer-receiver method that guards its receiver
+	tolDone      map[*types.Func]bool
+	nSites       int
+	nNullable    int
 }
 
 // typeOfSynth: static type of an expression that may contain synthesised selector nodes
@@ -463,7 +463,8 @@ func (c *p5) errNilAtom(fn *Func, a *Atom, errVar types.Object) bool {
 }
 
 // okVarsFor: boolean variables whose truth implies the value is non-nil:
-//   v, ok := m[k] / x.(T) / f() with a bool-correlated result; _, ok := m[k] for the path m[k].
+//
+//	v, ok := m[k] / x.(T) / f() with a bool-correlated result; _, ok := m[k] for the path m[k].
 func (c *p5) okVarsFor(fn *Func, e ast.Expr, obj types.Object, path string) []types.Object {
 	info := fn.Info()
 	var out []types.Object
@@ -1004,12 +1005,12 @@ func (c *p5) pathNonNil(fn *Func, e ast.Expr, path string, at ast.Node, depth in
 	}
 	// definitions
 	type def struct {
-		node   ast.Node
-		block  *cfg.Block
-		idx    int
-		nonNil bool
-		okVar  types.Object
-		errVar types.Object
+		node       ast.Node
+		block      *cfg.Block
+		idx        int
+		nonNil     bool
+		okVar      types.Object
+		errVar     types.Object
 		enumVar    types.Object
 		enumConsts []string
 	}
